@@ -253,15 +253,9 @@ Definition agree (c : case) : bool :=
       forallb (fun mo => String.eqb (snd (fst mo)) (snd (snd mo))) (combine (model_sites c s) (s_obs s))
   end.
 
-(* finding D30: quantifiers evaluated through the library's pipeline never range over the domain's constants.
-   The class is syntactic: the case observes ONLY the two constant-quantification kinds (such cases are generated
-   apart from all other observations, so the finding hides nothing else). *)
-Definition const_kind (k : string) : bool := String.eqb k "cforall_pre" || String.eqb k "cforall_eff".
-Definition known_class (c : case) : bool :=
-  match c_sites c with
-  | Some s => match s_obs s with [] => false | _ => forallb (fun ko => const_kind (fst ko)) (s_obs s) end
-  | None => false
-  end.
+(* D30 (quantifiers never ranged over the domain's constants) is repaired in /repo: the constant-quantification kinds
+   cforall_pre / cforall_eff are ordinary cases now, judged like every other site.  No recorded finding class is left. *)
+Definition known_class (c : case) : bool := false.
 
 (* compact literal of a case without sites: the names the tables range over are the section's type names *)
 Definition tc (gs : list group) (tr : list string) (types : obs string) (table edges : string) : case :=
